@@ -102,6 +102,7 @@ def run(ctx):
     from .. import docspace as DS
     k_full, k_core = ctx.pick((2, 2), (3, 3))
     DS.run_levels(ctx, __name__, k_full, k_core)
+    G.run_deep(ctx, __name__, 8)
 
 
 def replay(case):
